@@ -376,3 +376,57 @@ Example C12_slot_numbers_12M :
   bits_to_time B12000000 1000 = 83 /\ bits_to_time B12000000 33 = 2 /\ bits_to_time_up B12000000 11 = 1 /\
   bits_to_time B9600 100 = 10416 /\ bits_to_time B9600 33 = 3437 /\ bits_to_time_up B9600 11 = 1146.
 Proof. repeat split; reflexivity. Qed.
+
+(* The requester's side of "within the slot time": a station waiting for the status reply does not time out in a poll
+   that finds new bytes in its receive buffer (however late that poll is: new bytes restart the timer before it is
+   tested), nor in any poll up to Tslot after its last_bus_activity (the predicted end of its request); it keeps
+   waiting, transmits nothing, consumes nothing.  With C12_status_reply_in_slot: the first byte of the reply is in the
+   requester's buffer before its slot timer can fire, whatever the requester's own poll period. *)
+Theorem C12_requester_keeps_waiting : forall (A : Type) (ops : app_ops A) (f : fdl) (now : Z) (pin : phy_in)
+    (apps : list A) (a0 l : Z),
+  f_conn f = ConnOnline -> f_state f = AwaitStatusResponse a0 -> f_gap f = GapDoPoll a0 -> a0 <> ts f ->
+  tx_busy pin = false -> f_lba f = Some l -> 0 <= l < 4611686018427387904 -> 0 <= now < 4611686018427387904 -> l < now ->
+  0 <= slot_time (f_p f) <= 100000 * 1000000 ->
+  decode (rx pin) = Ok NeedMore ->
+  ((f_pending f < length (rx pin))%nat \/ now <= l + slot_time (f_p f)) ->
+  exists f', poll ops f now pin apps = Ok (f', mkPhyOut None (rx pin), apps, []) /\ f_state f' = f_state f.
+Proof. exact requester_keeps_waiting. Qed.
+Print Assumptions C12_requester_keeps_waiting.
+
+(* Non-vacuity: concrete polls of station 7 (HSA 16, 19200 baud, alone in its ring, so the GAP is everything but 7)
+   that satisfy the hypotheses of the theorems above - a GAP request to 8, the wrap HSA-1 -> 0, the end of the sweep
+   at TS-1 (token instead of a request), the two status replies of a listening station, a found successor; and a
+   builder-valid parameter set. *)
+Example C12_instance_gap_request :
+  exists f' o, poll unit_app_ops (ex_station (PassToken true AttFirst) (GapDoPoll 7) 7) 10000 (mkPhyIn false []) [tt]
+               = Ok (f', o, [tt], []) /\
+    tx o = Some (encode (TData (status_request_header 8 7) [])) /\ f_state f' = AwaitStatusResponse 8 /\ f_gap f' = GapDoPoll 8.
+Proof. exact example_gap_request. Qed.
+Example C12_instance_gap_request_wrap :
+  exists f' o, poll unit_app_ops (ex_station (PassToken true AttFirst) (GapDoPoll 15) 7) 10000 (mkPhyIn false []) [tt]
+               = Ok (f', o, [tt], []) /\
+    tx o = Some (encode (TData (status_request_header 0 7) [])) /\ f_state f' = AwaitStatusResponse 0.
+Proof. exact example_gap_request_wrap. Qed.
+Example C12_instance_sweep_end :
+  exists f' o, poll unit_app_ops (ex_station (PassToken true AttFirst) (GapDoPoll 6) 7) 10000 (mkPhyIn false []) [tt]
+               = Ok (f', o, [tt], []) /\
+    tx o = Some (encode_token 7 7) /\ f_gap f' = GapWaiting 0.
+Proof. exact example_sweep_end. Qed.
+Example C12_instance_status_reply_ready :
+  exists f' o, poll unit_app_ops (ex_station (ListenToken (Some 3) 0) (GapDoPoll 7) 3) 10000 (mkPhyIn false []) [tt]
+               = Ok (f', o, [tt], []) /\
+    tx o = Some (encode (TData (status_response_header 3 7 RsMasterWithoutToken StOk) [])) /\ f_state f' = ActiveIdle None None 0.
+Proof. exact example_status_reply. Qed.
+Example C12_instance_status_reply_not_ready :
+  exists f' o, poll unit_app_ops (ex_station (ListenToken (Some 4) 0) (GapDoPoll 7) 3) 10000 (mkPhyIn false []) [tt]
+               = Ok (f', o, [tt], []) /\
+    tx o = Some (encode (TData (status_response_header 4 7 RsMasterNotReady StOk) [])).
+Proof. exact example_status_reply_not_ready. Qed.
+Example C12_instance_found :
+  exists f' o, poll unit_app_ops (ex_station (AwaitStatusResponse 9) (GapDoPoll 9) 7) 10000
+                 (mkPhyIn false (encode (TData (status_response_header 7 9 RsMasterWithoutToken StOk) []))) [tt]
+               = Ok (f', o, [tt], []) /\
+    tx o = None /\ r_ns (f_ring f') = 9 /\ f_state f' = PassToken false AttFirst.
+Proof. exact example_found. Qed.
+Example C12_instance_builder_valid : builder_valid ex_params.
+Proof. exact example_params_builder_valid. Qed.
